@@ -115,7 +115,7 @@ void run_rlin(unsigned seed) {
     guarded([&]{
         std::printf("rlin cfg=%s T=%s n=%zu seed=%u", CFGNAME, tn<T>::n(), N, seed); std::fflush(stdout);
         const char* what = nullptr; long pos = -1;
-        for (int stmt = 0; stmt < 16 && !what; ++stmt) {
+        for (int stmt = 0; stmt < 19 && !what; ++stmt) {
             alignas(64) static unsigned char st1[256 + 256 * sizeof(T)], st2[256 + 256 * sizeof(T)];
             T* buf = reinterpret_cast<T*>(st1 + 64 + sizeof(T) * (1 + (seed + stmt) % 7));
             T* buf2 = reinterpret_cast<T*>(st2 + 64 + sizeof(T) * (1 + (seed + 3 * stmt) % 5));
@@ -150,6 +150,9 @@ void run_rlin(unsigned seed) {
                     Tensor<T,(N + 1) / 2,N> V = cm(seq(0, (int)N, 2), all);
                     for (size_t i = 0; i < (N + 1) / 2; ++i) for (size_t j = 0; j < N; ++j) if (V(i, j) != x[2 * i * N + j] || cm((int)(2 * i), (int)j) != x[2 * i * N + j]) { what = name; pos = -4; } }
                     break;
+                case 16: name = "m=m2 (map of the same type over another buffer)"; m = m2; for (size_t p = 0; p < N * N; ++p) want[p] = buf2[p]; break;
+                case 17: name = "m=B (tensor)"; m = B; for (size_t p = 0; p < N * N; ++p) want[p] = b[p]; break;
+                case 18: { name = "m=f2 (map of another shape over another buffer)"; TensorMap<T,N * N> f2(buf2); m = f2; for (size_t p = 0; p < N * N; ++p) want[p] = buf2[p]; break; }
                 default: name = "R=m%B+A (lazy product with a map operand)"; R = m % B + A; got = R.data(); for (size_t i = 0; i < N; ++i) for (size_t j = 0; j < N; ++j) want[i * N + j] = mm(x, b, i, j) + a[i * N + j]; break;
             }
             for (size_t p = 0; p < N * N && !what; ++p) {
